@@ -218,6 +218,16 @@ def run(ctx: core.Ctx):
                         ctx.violation(f"{c['py']}.{a['meth']}{args!r}: {what}",
                                       {"class": c["py"], "method": a["meth"], "args": [repr(x) for x in args], "real": r},
                                       {"kind": what.split(":")[0][:40], "method": a["meth"]})
+            # write-only functions stay unreadable whatever the device reports for them (e.g. the echo of a PUT)
+            for f in c["fns"]:
+                if not f["get"]:
+                    from .c03 import value_for
+                    S.msg("OK", c["id"], f["name"], value_for(rng, T, f, undecodable_ok=False))
+                    r = S.read(idx, f["attr"])
+                    ctx.case((c["py"], f["attr"], "read-after-report"))
+                    if not r.startswith("AE"):
+                        ctx.violation(f"write-only attribute {c['py']}.{f['attr']} can be read after the device reported a value for it: {r}",
+                                      {"class": c["py"], "attr": f["attr"], "op": "read-after-report"}, {"kind": "writeonly-read", "function": f["name"]})
             S.dump()
             model = S.finish()
             for i, (op, real, m) in enumerate(zip(S.ops, S.real, model)):
